@@ -23,6 +23,7 @@ class Script:
         self.vals = {}      # id -> len
         self.vbylen = {}
         self.meta = {"name": name}
+        self.tag = None
         self.ops.append({"op": "reset", "design": design})
 
     # --- tables
@@ -79,6 +80,33 @@ class Script:
             return self.vbylen[ln]
         return self.newval(ln)
 
+    def val_ascii(self, ln):
+        """a value of printable ASCII bytes (survives UTF-8 lossy decoding unchanged)"""
+        self.nv += 1
+        vid = self.idbase + self.nv
+        raw = (("%08d" % (vid % 100000000)) + "".join(chr(33 + (vid * 7 + i * 13) % 90) for i in range(max(0, ln - 8))))[:ln].encode()
+        if ln < 8:
+            raw = ("%d" % vid)[-ln:].encode() if ln else b""
+        self.pv.append({"id": vid, "hex": raw.hex()})
+        self.vals[vid] = ln
+        return vid
+
+    def val_invalid_utf8(self, ln):
+        """a value with 0xFF bytes (never valid UTF-8) and its lossy decoding (each 0xFF -> U+FFFD);
+        returns (raw id, lossy id); the tables say lossy[raw] = lossy id"""
+        a = self.val_ascii(ln)
+        raw = bytearray(bytes.fromhex(self.pv[-1]["hex"]))
+        self.pv.pop()
+        for i in range(2, len(raw), 5):
+            raw[i] = 0xFF
+        self.pv.append({"id": a, "hex": bytes(raw).hex()})
+        lossy = bytes(raw).replace(b"\xff", b"\xef\xbf\xbd")
+        self.nv += 1
+        b = self.idbase + self.nv
+        self.pv.append({"id": b, "hex": lossy.hex(), "lossy_of": a})
+        self.vals[b] = len(lossy)
+        return a, b
+
     def newval(self, ln):
         if ln < 4 and ln in self.vbylen:
             return self.vbylen[ln]      # tiny values: the universe is too small for distinct fillers
@@ -97,6 +125,8 @@ class Script:
     def op(self, opname, **kw):
         self.flush_tables()
         d = {"op": opname}
+        if self.tag:
+            d["tag"] = self.tag
         d.update(kw)
         self.ops.append(d)
         return d
@@ -477,7 +507,7 @@ def gen_sync(seed, idbase=0, nops=160, nmaps=2, kill=False, name="sync"):
         d = "snap%d" % snap
         s.op("copy_dir", **{"from": "d", "to": d})
         for m in which:
-            s.op("child_dump", dir=d, name=m["name"], kt=m["kt"], **{"as": "C03.snapshot"})
+            s.op("child_dump", dir=d, name=m["name"], kt=m["kt"], ks=m["keys"], **{"as": "C03.snapshot"})
         s.op("rm_dir", dir=d)
 
     # a map that was only created: flush, snapshot -> valid empty map
@@ -516,11 +546,11 @@ def gen_sync(seed, idbase=0, nops=160, nmaps=2, kill=False, name="sync"):
             s.op("open_db", db=0, dir="d")
             for mm in maps:
                 s.op("map", h=mm["h"], db=0, name=mm["name"], kt=mm["kt"], **{"as": "C03.snapshot"})
-                s.op("dump", h=mm["h"], **{"as": "C03.snapshot"})
+                s.op("dump", h=mm["h"], ks=mm["keys"], **{"as": "C03.snapshot"})
     s.op("new_process")
     for mm in maps:
         s.op("decode", dir="d", name=mm["name"], native=True)
-        s.op("child_dump", dir="d", name=mm["name"], kt=mm["kt"])
+        s.op("child_dump", dir="d", name=mm["name"], kt=mm["kt"], ks=mm["keys"])
     return s
 
 
@@ -592,3 +622,438 @@ def fault_thresholds(shape, count, rng):
         if t not in out:
             out.append(t)
     return out
+
+
+BUCKET_PARAMS_Q = [["BucketsSize", 1], ["BucketsSize", 2], ["BucketsSize", 3], ["BucketsSize", 4], ["BucketsSize", 8], ["BucketsSize", 100],
+                   ["BucketsSize", 65536], ["Capacity", 1], ["Capacity", 7], ["Capacity", 8], ["Capacity", 9], ["Capacity", 100], ["Capacity", 65536]]
+BUF_PARAMS = [["Size", 0], ["Size", 1], ["Size", 131072], ["Size", 262144], ["Size", 1048576], ["PerMille", 1000], ["Auto"]]
+
+
+def gen_params(seed, idbase=0, nops=220, buckets=("BucketsSize", 8), bufs=None, reopen=None, tag=None, kt="bytes", name="params"):
+    """C07: one history (a function of the seed only) executed under a given configuration; enough data
+    (values up to 70 KB, keys up to 60 KB) to pass several buffer chunks and force eviction."""
+    rng = random.Random(seed)          # NOTE: the history depends on the seed only, never on the configuration
+    s = Script(idbase, design=False, name=name)
+    s.tag = tag
+    s.meta.update(kind="params", seed=seed, buckets=list(buckets), bufs=bufs, tag=tag)
+    keys = _mk_keys(s, rng, kt, 30, lens=[0, 1, 8, 10, 11, 40, 127, 128, 3000]) + [s.key(20000), s.key(60000), s.key(45000)]
+    vids = [s.newval(x) for x in (0, 3, 20, 100, 1100, 4095, 4096, 4097, 20000, 70000, 131072, 50000)]
+    params = {"buckets": list(buckets)}
+    if bufs:
+        params.update(key_buf=bufs[0], val_buf=bufs[1], htx_buf=bufs[2])
+    s.op("open_db", db=0, dir="d")
+    s.op("map", h=1, db=0, name="m", kt=kt, params=params)
+    for i in range(nops):
+        r = rng.random()
+        k = rng.choice(keys)
+        if r < 0.5:
+            s.op("put", h=1, k=k, v=rng.choice(vids))
+        elif r < 0.7:
+            s.op("del", h=1, k=k)
+        elif r < 0.88:
+            s.op("get", h=1, k=k)
+        elif r < 0.93:
+            s.op("len", h=1)
+        elif r < 0.97:
+            s.op("iter", h=1, flavour=rng.choice(FLAVOURS))
+        else:
+            s.op(rng.choice(["flush", "sync_data", "read_fill_buffer"]), h=1)
+        if i == nops // 2:
+            s.op("dump", h=1)
+            s.op("drop_all")
+            s.op("decode", dir="d", name="m", native=True)
+            s.op("open_db", db=0, dir="d")
+            s.op("map", h=1, db=0, name="m", kt=kt, params=reopen, **{"as": "C07.reopen"})
+            s.op("dump", h=1, **{"as": "C07.reopen"})
+    s.op("dump", h=1)
+    s.op("iter", h=1, flavour="iter")
+    s.op("new_process")
+    s.op("decode", dir="d", name="m", native=True)
+    s.op("child_dump", dir="d", name="m", kt=kt, params=reopen, **{"as": "C07.reopen"})
+    return s
+
+
+MAP_NAMES = ["a", "b.x", "b.y", "data.2024", "data.2025", "m-1", "A", "b"]
+
+
+def gen_multi(seed, idbase=0, nops=250, nmaps=3, name="multi"):
+    """C11: interleaved histories over several named maps of mixed key types in one directory; handles
+    cloned, re-acquired and looked up through a cloned database handle; files of the maps that are
+    not operated on compared byte for byte across the other maps' updates."""
+    rng = random.Random(seed)
+    s = Script(idbase, design=False, name=name)
+    s.meta.update(kind="multi", seed=seed, nmaps=nmaps)
+    names = rng.sample(MAP_NAMES, nmaps)
+    # two names that differ only behind the last dot are always included
+    if "b.x" not in names or "b.y" not in names:
+        names[0], names[1 % nmaps] = "b.x", "b.y"
+    names = list(dict.fromkeys(names))
+    s.op("open_db", db=0, dir="d")
+    s.op("clone_db", db=1, **{"from": 0})
+    maps = []
+    nh = 0
+    for nm in names:
+        kt = rng.choice(KTS)
+        nh += 1
+        s.op("map", h=nh, db=0, name=nm, kt=kt, params={"buckets": rng.choice([["BucketsSize", 4], ["BucketsSize", 64], ["Capacity", 30]])})
+        maps.append(dict(name=nm, kt=kt, hs=[nh], keys=_mk_keys(s, rng, kt, 10)))
+    vids = [s.newval(x) for x in (0, 3, 20, 21, 100, 1100, 5000)]
+    tagn = 0
+    for i in range(nops):
+        m = rng.choice(maps)
+        r = rng.random()
+        if r < 0.08:
+            nh += 1
+            how = rng.random()
+            if how < 0.4:
+                s.op("clone_h", h=nh, **{"from": rng.choice(m["hs"])})
+            elif how < 0.7:
+                s.op("map", h=nh, db=0, name=m["name"], kt=m["kt"])
+            else:
+                s.op("map", h=nh, db=1, name=m["name"], kt=m["kt"], params={"buckets": ["BucketsSize", 2]})
+            m["hs"].append(nh)
+            continue
+        if r < 0.11 and len(m["hs"]) > 1:
+            h = m["hs"].pop(rng.randrange(len(m["hs"])))
+            s.op("drop_h", h=h)
+            continue
+        h = rng.choice(m["hs"])
+        k = rng.choice(m["keys"])
+        check_others = rng.random() < 0.25
+        others = [o for o in maps if o is not m]
+        if check_others:
+            tagn += 1
+            for o in others:
+                s.op("digest", dir="d", name=o["name"], tag="pre%d_%s" % (tagn, o["name"]))
+        if r < 0.55:
+            s.op("put", h=h, k=k, v=rng.choice(vids))
+        elif r < 0.72:
+            s.op("del", h=h, k=k)
+        elif r < 0.86:
+            s.op("get", h=rng.choice(m["hs"]), k=k)
+        elif r < 0.92:
+            s.op("len", h=rng.choice(m["hs"]))
+        elif r < 0.96:
+            s.op("iter", h=rng.choice(m["hs"]), flavour=rng.choice(FLAVOURS))
+        else:
+            s.op(rng.choice(["flush", "sync_all"]), h=h)
+        if check_others:
+            for o in others:
+                s.op("digest", dir="d", name=o["name"], tag="post%d_%s" % (tagn, o["name"]))
+                s.op("note", conj="C11.others", same=["pre%d_%s" % (tagn, o["name"]), "post%d_%s" % (tagn, o["name"])])
+        if i % 60 == 59:
+            for o in maps:
+                s.op("dump", h=rng.choice(o["hs"]), ks=o["keys"], **{"as": "C11.result"})
+    s.op("new_process")
+    for o in maps:
+        s.op("decode", dir="d", name=o["name"], native=True)
+        s.op("child_dump", dir="d", name=o["name"], kt=o["kt"], ks=o["keys"], **{"as": "C11.result"})
+    return s
+
+
+def gen_readonly(seed, idbase=0, nb=("BucketsSize", 16), state="dense", kt="bytes", nro=60, name="ro"):
+    """C15: a state class is built and closed; then a session of read-only calls only; the three files
+    must be byte-identical before and after."""
+    rng = random.Random(seed)
+    s = Script(idbase, design=False, name=name)
+    n = layout_buckets(nb)
+    s.meta.update(kind="readonly", seed=seed, nb=list(nb), state=state)
+    keys = _mk_keys(s, rng, kt, 24)
+    absent = _mk_keys(s, rng, kt, 8)
+    vids = [s.newval(x) for x in (0, 3, 20, 100, 1100, 5000)]
+    s.op("open_db", db=0, dir="d")
+    s.op("map", h=1, db=0, name="m", kt=kt, params={"buckets": list(nb)})
+    live = []
+    if state in ("dense", "sparse", "emptied"):
+        cnt = {"dense": 24, "sparse": 2, "emptied": 6}[state]
+        for k in keys[:cnt]:
+            s.op("put", h=1, k=k, v=rng.choice(vids))
+            live.append(k)
+        if state == "dense":
+            for k in rng.sample(live, 6):
+                s.op("del", h=1, k=k)
+                live.remove(k)
+        if state == "emptied":
+            for k in list(live):
+                s.op("del", h=1, k=k)
+            live = []
+    s.op("new_process")
+    s.op("digest", dir="d", name="m", tag="before")
+    s.op("decode", dir="d", name="m", native=True)
+    s.op("open_db", db=0, dir="d")
+    s.op("map", h=1, db=0, name="m", kt=kt)
+    for i in range(nro):
+        r = rng.random()
+        k = rng.choice(keys + absent)
+        if r < 0.25:
+            s.op("get", h=1, k=k)
+        elif r < 0.35:
+            s.op("includes", h=1, k=k)
+        elif r < 0.45:
+            s.op(rng.choice(["len", "is_empty"]), h=1)
+        elif r < 0.62:
+            s.op("iter", h=1, flavour=rng.choice(FLAVOURS))
+        elif r < 0.70:
+            s.op("bulk_get", h=1, ks=[rng.choice(keys + absent) for _ in range(rng.randrange(0, 8))])
+        elif r < 0.80:
+            s.op("stats", h=1, filling=(n <= 65536))
+        elif r < 0.86:
+            s.op("read_fill_buffer", h=1)
+        else:
+            s.op(rng.choice(["flush", "sync_all", "sync_data"]), h=1)
+    s.op("dump", h=1)
+    s.op("new_process")
+    s.op("digest", dir="d", name="m", tag="after")
+    s.op("note", conj="C15.bytes", same=["before", "after"])
+    s.op("child_dump", dir="d", name="m", kt=kt)
+    return s
+
+
+def gen_twice(seed, idbase=0, nops=150, nb=("BucketsSize", 32), kt="bytes", bufs=None, name="twice", nkeys=20):
+    """C18: the same update history with the same parameters is run twice: replica A plainly, replica B in
+    another process and directory with read-only calls spliced in; the files must be byte-identical."""
+    rng = random.Random(seed)
+    s = Script(idbase, design=False, name=name)
+    n = layout_buckets(nb)
+    s.meta.update(kind="twice", seed=seed, nb=list(nb))
+    keys = _mk_keys(s, rng, kt, nkeys)
+    vids = [s.newval(x) for x in (0, 3, 20, 21, 100, 1100, 1500, 5000, 20000)]
+    params = {"buckets": list(nb)}
+    if bufs:
+        params.update(key_buf=bufs[0], val_buf=bufs[1], htx_buf=bufs[2])
+    upd = []
+    for i in range(nops):
+        k = rng.choice(keys)
+        if rng.random() < 0.7:
+            upd.append(("put", k, rng.choice(vids)))
+        else:
+            upd.append(("del", k, None))
+    for rep, d in (("A", "dA"), ("B", "dB")):
+        s.op("open_db", db=0, dir=d)
+        s.op("map", h=1, db=0, name="m", kt=kt, params=params)
+        if rep == "B":
+            s.op("iter", h=1, flavour=rng.choice(FLAVOURS))      # traversal of the fresh, empty table
+        for (o, k, v) in upd:
+            if o == "put":
+                s.op("put", h=1, k=k, v=v)
+            else:
+                s.op("del", h=1, k=k)
+            if rep == "B" and rng.random() < 0.5:
+                r = rng.random()
+                if r < 0.3:
+                    s.op("get", h=1, k=rng.choice(keys))
+                elif r < 0.5:
+                    s.op("iter", h=1, flavour=rng.choice(FLAVOURS))
+                elif r < 0.6:
+                    s.op("len", h=1)
+                elif r < 0.7:
+                    s.op("includes", h=1, k=rng.choice(keys))
+                elif r < 0.8:
+                    s.op("stats", h=1, filling=(n <= 65536))
+                elif r < 0.9:
+                    s.op("bulk_get", h=1, ks=[rng.choice(keys) for _ in range(3)])
+                else:
+                    s.op("read_fill_buffer", h=1)
+        s.op("dump", h=1)
+        s.op("new_process")
+    s.op("digest", dir="dA", name="m", tag="repA")
+    s.op("digest", dir="dB", name="m", tag="repB")
+    s.op("note", conj="C18.equal", same=["repA", "repB"])
+    s.op("decode", dir="dB", name="m", native=True)
+    return s
+
+
+SIG1 = {"htx": b"abysdbH\0", "key": b"abysdbK\0", "val": b"abysdbV\0"}
+SIG2 = {"string": b"string\0\0", "bytes": b"bytes\0\0\0", "i64": b"i64_le\0\0", "u64": b"u64_le\0\0", "vu64": b"u64_le\0\0"}
+
+
+def gen_wrongtype(seed, idbase=0, pairs=None, sigvals=4, name="wrongtype"):
+    """C13: files created for one key type opened as another one; a file of another key type swapped in;
+    every signature byte of every file mutated; short foreign files.  A refused open must leave all
+    files byte-for-byte unchanged."""
+    rng = random.Random(seed)
+    s = Script(idbase, design=False, name=name)
+    s.meta.update(kind="wrongtype", seed=seed)
+    pairs = pairs if pairs is not None else [(a, b) for a in KTS for b in KTS if a != b]
+    tagn = 0
+
+    def refused(d, nm, kt, what):
+        nonlocal tagn
+        tagn += 1
+        s.op("digest", dir=d, name=nm, tag="pre%d" % tagn)
+        s.op("child_dump", dir=d, name=nm, kt=kt, note=what, ks=[])
+        s.op("digest", dir=d, name=nm, tag="post%d" % tagn)
+        s.op("note", conj="C13.unchanged", same=["pre%d" % tagn, "post%d" % tagn])
+
+    # one map per key type, with a few entries, closed
+    s.op("open_db", db=0, dir="d")
+    keysof = {}
+    vids = [s.newval(x) for x in (3, 20, 1100)]
+    for i, kt in enumerate(KTS):
+        s.op("map", h=i + 1, db=0, name="m_" + kt, kt=kt, params={"buckets": ["BucketsSize", 8]})
+        keysof[kt] = _mk_keys(s, rng, kt, 4)
+        for k in keysof[kt]:
+            s.op("put", h=i + 1, k=k, v=rng.choice(vids))
+    s.op("new_process")
+    s.op("copy_dir", **{"from": "d", "to": "bak"})
+    # (1) every ordered pair of key types
+    for (a, b) in pairs:
+        refused("d", "m_" + a, b, "open %s as %s" % (a, b))
+    # (2) one of the three files carries the signature of another key type (file swapped in)
+    for (a, b) in rng.sample(pairs, min(len(pairs), 8)):
+        if SIG2[a] == SIG2[b]:
+            continue
+        for ext in ("htx", "key", "val"):
+            s.op("mutate_file", file="d/m_%s.%s" % (a, ext), copy_from="bak/m_%s.%s" % (b, ext), map="d/m_" + a, foreign=True)
+            refused("d", "m_" + a, a, "file .%s of %s swapped in" % (ext, b))
+            s.op("mutate_file", file="d/m_%s.%s" % (a, ext), copy_from="bak/m_%s.%s" % (a, ext), map="d/m_" + a, foreign=False)
+    # (3) single-byte mutations of the 16 signature bytes of each file
+    a = rng.choice(KTS)
+    for ext in ("htx", "key", "val"):
+        orig = SIG1[ext] + SIG2[a]
+        for off in range(16):
+            vals = [x for x in range(256) if x != orig[off]]
+            for x in (vals if sigvals >= 255 else rng.sample(vals, sigvals)):
+                s.op("mutate_file", file="d/m_%s.%s" % (a, ext), at=off, hex="%02x" % x, map="d/m_" + a, foreign=True)
+                refused("d", "m_" + a, a, "byte %d of .%s = %02x" % (off, ext, x))
+                s.op("mutate_file", file="d/m_%s.%s" % (a, ext), at=off, hex="%02x" % orig[off], map="d/m_" + a, foreign=False)
+    # (4) short and long foreign files in place of one of the files
+    for ext, ln in (("key", 1), ("key", 100), ("key", 191), ("key", 192), ("key", 5000), ("val", 100), ("val", 191), ("htx", 60), ("htx", 127), ("htx", 128), ("htx", 4000)):
+        text = (b"This is not a database file. " * 200)[:ln]
+        s.op("mutate_file", file="d/m_%s.%s" % (a, ext), content_hex=text.hex(), map="d/m_" + a, foreign=True)
+        refused("d", "m_" + a, a, "foreign %d-byte file as .%s" % (ln, ext))
+        s.op("mutate_file", file="d/m_%s.%s" % (a, ext), copy_from="bak/m_%s.%s" % (a, ext), map="d/m_" + a, foreign=False)
+    # afterwards every map still opens with its contents
+    for kt in KTS:
+        s.op("child_dump", dir="d", name="m_" + kt, kt=kt, ks=keysof[kt])
+    return s
+
+
+def gen_bulk(seed, idbase=0, nops=200, kt="bytes", nb=("BucketsSize", 16), name="bulk"):
+    """C14: bulk and convenience calls spliced into a history; judged element-wise by the contract"""
+    rng = random.Random(seed)
+    s = Script(idbase, design=False, name=name)
+    s.meta.update(kind="bulk", seed=seed, kt=kt)
+    keys = _mk_keys(s, rng, kt, 40)
+    vids = [s.val_ascii(x) for x in (0, 1, 3, 10, 20, 21, 100, 300, 1100, 2000)] + [s.val_ascii(rng.randrange(1, 60)) for _ in range(10)]
+    # values that are not valid UTF-8: the *_string variants return their lossy decoding
+    raw = [s.val_invalid_utf8(x)[0] for x in (9, 20, 300)]
+    s.op("open_db", db=0, dir="d")
+    s.op("map", h=1, db=0, name="m", kt=kt, params={"buckets": list(nb)})
+
+    def batch(norepeat, lo=0, hi=12):
+        n = rng.randrange(lo, hi)
+        if rng.random() < 0.1:
+            n = rng.randrange(50, 200)
+        ks = [rng.choice(keys) for _ in range(n)]
+        if norepeat:
+            ks = list(dict.fromkeys(ks))
+        rng.shuffle(ks)
+        return ks
+
+    for i in range(nops):
+        r = rng.random()
+        if r < 0.14:
+            s.op(rng.choice(["bulk_get", "bulk_get_string"]), h=1, ks=batch(False))
+        elif r < 0.26:
+            ks = batch(rng.random() < 0.85)
+            s.op(rng.choice(["bulk_del", "bulk_del_string"]), h=1, ks=ks)
+        elif r < 0.40:
+            ks = batch(True)
+            s.op(rng.choice(["bulk_put", "bulk_put_string"]), h=1, ks=ks, vs=[rng.choice(vids) for _ in ks])
+        elif r < 0.52:
+            ks = batch(False)                      # repeated keys allowed: applied in iteration order
+            if ks and rng.random() < 0.7:
+                ks = ks + [rng.choice(ks)] + [ks[0]]
+            s.op("put_from_iter", h=1, ks=ks, vs=[rng.choice(vids + raw) for _ in ks])
+        elif r < 0.60:
+            s.op("put_string", h=1, k=rng.choice(keys), v=rng.choice(vids))
+        elif r < 0.68:
+            s.op("put", h=1, k=rng.choice(keys), v=rng.choice(vids + raw))
+        elif r < 0.76:
+            k = rng.choice(keys)
+            s.op(rng.choice(["get", "get_string", "includes"]), h=1, k=k)
+        elif r < 0.82:
+            s.op("len", h=1)
+        elif r < 0.90:
+            s.op(rng.choice(["del", "del_string"]), h=1, k=rng.choice(keys))
+        else:
+            s.op("dump", h=1)
+    s.op("dump", h=1)
+    s.op("new_process")
+    s.op("decode", dir="d", name="m", native=True)
+    s.op("child_dump", dir="d", name="m", kt=kt)
+    return s
+
+
+def conv_ints(rng, extra):
+    xs = set()
+    for b in range(0, 65):
+        for d in (-1, 0, 1):
+            x = (1 << b) + d
+            if 0 <= x < (1 << 64):
+                xs.add(x)
+    for b in range(64):
+        xs.add(1 << b)
+        xs.add(((1 << 64) - 1) ^ (1 << b))
+    xs.update([0, 1, (1 << 63) - 1, 1 << 63, (1 << 64) - 1, 0x0102030405060708, 0xfffefdfcfbfaf9f8])
+    for _ in range(extra):
+        xs.add(rng.getrandbits(rng.choice([7, 8, 14, 15, 21, 28, 35, 42, 49, 56, 57, 63, 64])))
+    return sorted(xs)
+
+
+def gen_conv(seed, idbase=0, extra=2000, name="conv"):
+    """C10: integer <-> key conversions of every typed key type at every width boundary"""
+    rng = random.Random(seed)
+    s = Script(idbase, design=False, name=name)
+    s.meta.update(kind="conv", seed=seed)
+    for x in conv_ints(rng, extra):
+        for kt in ("u64", "i64", "vu64", "bytes", "string"):
+            if kt in ("bytes", "string") and rng.random() < 0.8:
+                continue
+            s.op("conv", kt=kt, u64=str(x))
+    return s
+
+
+def gen_typed(seed, idbase=0, kt="u64", nb=("BucketsSize", 1), nops=250, name="typed"):
+    """C10: a typed map driven through the integer API; two integers address one entry iff equal"""
+    rng = random.Random(seed)
+    s = Script(idbase, design=True, name=name)
+    s.meta.update(kind="typed", seed=seed, kt=kt, nb=list(nb))
+    enc = {"u64": "u64le", "i64": "i64le", "vu64": "vu64"}[kt]
+    ints = [x for x in conv_ints(rng, 0)]
+    rng.shuffle(ints)
+    # pairs that share their low 56 bits / low bytes, and sign-bit neighbours
+    cand = [(1 << 56) + 1, (1 << 57) + 1, (1 << 63) + 1, (255 << 56) + 1, 1, 256 + 1, (1 << 32) + 1, (1 << 63), (1 << 63) - 1, (1 << 64) - 1, 0] + ints[:14]
+    keys = []
+    for x in cand:
+        k = s.key(u64=x, enc=enc)
+        if k:
+            keys.append(k)
+    vids = [s.val(x) for x in (0, 3, 20, 100, 1100)]
+    s.op("open_db", db=0, dir="d")
+    s.op("map", h=1, db=0, name="m", kt=kt, params={"buckets": list(nb)})
+    dec = dict(dir="d", name="m", flush_h=1, native=True)
+    for i in range(nops):
+        r = rng.random()
+        k = rng.choice(keys)
+        via = "int" if rng.random() < 0.8 else "bytes"
+        if r < 0.45:
+            s.op("put", h=1, k=k, v=rng.choice(vids), via=via)
+        elif r < 0.62:
+            s.op("del", h=1, k=k, via=via)
+        elif r < 0.80:
+            s.op("get", h=1, k=k, via=via)
+        elif r < 0.88:
+            s.op("includes", h=1, k=k, via=via)
+        elif r < 0.94:
+            s.op("iter", h=1, flavour=rng.choice(FLAVOURS))
+        else:
+            s.op("len", h=1)
+        if i % 25 == 24:
+            s.op("decode", **dec)
+    s.op("dump", h=1)
+    s.op("new_process")
+    s.op("decode", dir="d", name="m", native=True)
+    s.op("child_dump", dir="d", name="m", kt=kt)
+    return s
